@@ -76,11 +76,12 @@ Section ERun.
         r <- (fix go (us: list pdec) (l: list string) {struct us} : res (list pv) :=
                 match us, l with
                 | [], _ => Ok []
-                | _ :: _, [] => none_tail us
+                | _ :: _, [] => none_tail E us
                 | u' :: us', x :: l' => y <- on_u u' x ;; ys <- go us' l' ;; Ok (y :: ys)
                 end) us (utf8_chars s) ;;
         Ok (VTuple r)
     | UDictComp _ _ => Exn XAttributeError
+    | UTupleU _ _ _ _ => Exn (XOther "unsupported: tuple with an unpacked segment")   (* modelled by TyModel.uk only; the C05 stream excludes it *)
     | UData c => match sfind E KData c with
                  | Some _ => Exn XValueError
                  | None => Exn XAttributeError end
@@ -91,7 +92,7 @@ Section ERun.
             match n with
             | O => Exn XRecursion
             | S n' =>
-                r <- nt_items (fun f x => ue_str n' (cu true f.(sf_ty)) x) konst_u
+                r <- nt_items (fun f x => ue_str n' (cu true f.(sf_ty)) x) (konst_u E)
                               (nt_exhausted (TyModel.has_default k.(sc_fields))) k.(sc_fields) (utf8_chars s) ;;
                 Ok (VNT c r)
             end
@@ -99,7 +100,7 @@ Section ERun.
     | UTyped c =>
         match sfind E KTyped c with
         | None => Exn XAttributeError
-        | Some k => td_nondict konst_u k.(sc_fields) end
+        | Some k => td_nondict (konst_u E) k.(sc_fields) end
     end.
 
   Fixpoint ue (d: pv) {struct d} : pdec -> res pv :=
@@ -138,7 +139,7 @@ Section ERun.
               r <- (fix go (us: list pdec) (l: list pv) {struct l} : res (list pv) :=
                       match us, l with
                       | [], _ => Ok []
-                      | _ :: _, [] => none_tail us                 (* value[i]: IndexError *)
+                      | _ :: _, [] => none_tail E us                 (* value[i]: IndexError *)
                       | u' :: us', x :: l' => y <- ue x u' ;; ys <- go us' l' ;; Ok (y :: ys)
                       end) us l ;;
               Ok (VTuple r)
@@ -151,7 +152,7 @@ Section ERun.
                       match us with
                       | [] => Ok []
                       | u' :: us' =>
-                          y <- match const_dec u' with
+                          y <- match const_dec E u' with
                                | Some c => Ok c
                                | None => match look_k entries (VInt i) with
                                          | Some dx => dx u'
@@ -165,7 +166,7 @@ Section ERun.
               r <- (fix go (us: list pdec) : res (list pv) :=
                       match us with
                       | [] => Ok []
-                      | u' :: us' => match const_dec u' with
+                      | u' :: us' => match const_dec E u' with
                                      | Some c => ys <- go us' ;; Ok (c :: ys)
                                      | None => Exn XTypeError end
                       end) us ;;
@@ -179,6 +180,7 @@ Section ERun.
                                     if hashable k' then Ok (k', x') else Exn XTypeError end) kvs ;;
               Ok (VDict (dict_of_pairs r))
           | _ => Exn XAttributeError end                  (* .items() *)
+      | UTupleU _ _ _ _ => Exn (XOther "unsupported: tuple with an unpacked segment")
       | UData c =>
           match sfind E KData c with
           | None => Exn XAttributeError
@@ -216,7 +218,7 @@ Section ERun.
               | VList l | VTuple l =>
                   (* with defaults: try ... except IndexError: if len(fields) < len(value): raise
                      -- an exception raised INSIDE an item unpacker always propagates (fix 8ccb0df) *)
-                  r <- nt_items (fun f x => ue x (cu true f.(sf_ty))) konst_u
+                  r <- nt_items (fun f x => ue x (cu true f.(sf_ty))) (konst_u E)
                                 (nt_exhausted (TyModel.has_default k.(sc_fields))) k.(sc_fields) l ;;
                   Ok (VNT c r)
               | VStr s => ue_str (List.length E) u s
@@ -227,7 +229,7 @@ Section ERun.
                           match fds with
                           | [] => Ok []
                           | f :: rest =>
-                              y <- match konst_u f with
+                              y <- match (konst_u E) f with
                                    | Some c0 => Ok c0
                                    | None => match look_k entries (VInt i) with
                                              | Some dx => dx (cu true f.(sf_ty))
@@ -237,7 +239,7 @@ Section ERun.
                           end) k.(sc_fields) 0 ;;
                   Ok (VNT c r)
               | _ =>
-                  r <- nt_tail konst_u (fun _ => Exn XTypeError) k.(sc_fields) ;; Ok (VNT c r)
+                  r <- nt_tail (konst_u E) (fun _ => Exn XTypeError) k.(sc_fields) ;; Ok (VNT c r)
               end
           end
       | UTyped c =>
@@ -248,10 +250,10 @@ Section ERun.
               | VDict kvs =>
                   let entries : list (pv * (pdec -> res pv)) :=
                       map (fun p => match p with (key, x) => (key, ue x) end) kvs in
-                  r <- td_go (fun f dx => dx (cu true f.(sf_ty))) konst_u XKeyError
+                  r <- td_go (fun f dx => dx (cu true f.(sf_ty))) (konst_u E) XKeyError
                              entries (td_order k.(sc_fields)) ;;
                   Ok (VDict r)
-              | _ => td_nondict konst_u k.(sc_fields)
+              | _ => td_nondict (konst_u E) k.(sc_fields)
               end
           end
       end.
